@@ -198,6 +198,16 @@ def run_shard(args):
                         raise
                     case, f = ctx.best_fail or ctx.first_fail
                     violations.append((ph.name, case, f, False))
+                except HarnessAbort:
+                    raise
+                except Exception:
+                    # an internal error of Hypothesis while shrinking (seen:
+                    # ValueError in intervalsets.index) must not hide the
+                    # violation that was being shrunk
+                    if ctx.first_fail is None:
+                        raise
+                    case, f = ctx.best_fail or ctx.first_fail
+                    violations.append((ph.name, case, f, False))
                 for sig, (case, f) in ctx.other_violations.items():
                     violations.append((ph.name, case, f, False))
                 ctx.other_violations = {}
